@@ -209,7 +209,10 @@ def single_fault_mutants(wf):
         if len(refs) >= 2 and t in reach:
             m = copy.deepcopy(wf)
             del m["tasks"][t]
+            still = rd.RefDef(m).reachable()  # the statement covers reachable transitions only
             for (src, i) in refs:
+                if src not in still:
+                    continue
                 yield ("undefined_target_multi", "%s removed; %s.next[%d]" % (t, src, i),
                        "tasks.%s.next[%d].do" % (src, i), m)
     # (b) a task named like an engine command
@@ -232,7 +235,11 @@ def single_fault_mutants(wf):
         if t not in reach:
             continue
         sites.append(("tasks.%s.action" % t, ("tasks", t, "action")))
-        sites.append(("tasks.%s.input" % t, ("tasks", t, "input", "p")))
+        act = wf["tasks"][t].get("action")
+        if not (isinstance(act, str) and " " in act.strip()):
+            # an action written with inline parameters replaces the task's `input` altogether: an expression
+            # injected there is not part of the effective definition
+            sites.append(("tasks.%s.input" % t, ("tasks", t, "input", "p")))
         for i, tr in enumerate(wf["tasks"][t].get("next") or []):
             sites.append(("tasks.%s.next[%d].when" % (t, i), ("tasks", t, "next", i, "when")))
             sites.append(("tasks.%s.next[%d].publish" % (t, i), ("tasks", t, "next", i, "publish")))
